@@ -48,6 +48,12 @@ def make_pairs(rng, count):
             # a two-service system whose auxiliary energy is shared by its output energy, nearly idle at some steps: the output
             # energy only enters through ratios, which subdivision leaves unchanged however small the sub-step values get
             small = [Fraction(rng.randint(1, 8), 1024) if rng.random() < 0.6 else Fraction(rng.randint(64, 6400), 64) for _ in range(n)]
+            if rng.random() < 0.5:
+                # idle steps: the system delivers nothing at all while its auxiliary energy is still declared (stand-by): whatever
+                # the rule for those steps is, it may not look at the neighbouring steps
+                idle = rng.sample(range(n), rng.randint(1, max(1, n // 3)))
+                small = [0 if t in idle else x for t, x in enumerate(small)]
+                b.tags.add("aux_system_with_idle_steps")
             b.add("CONSUMO", id=77, service="CAL", carrier="ELECTRICIDAD", values=gen.vec(rng, n, pzero=0.0, hi=64 * 100))
             b.add("CONSUMO", id=77, service="ACS", carrier="ELECTRICIDAD", values=gen.vec(rng, n, pzero=0.0, hi=64 * 100))
             b.add("SALIDA", id=77, service="CAL", values=small)
